@@ -14,21 +14,26 @@ def sql_lit(v, pool):
     raise ValueError(f"literal kind {k}")
 
 
-def render(x, names, pool):
-    """names: SQL text of column i (1-based list)."""
+def render(x, names, pool, litfmt=None, ctxcol=0):
+    """names: SQL text of column i (1-based list); litfmt: {column: function(value record) -> SQL} for literals
+    compared with that column (e.g. timestamps)."""
     op = x["op"]
     if op == "col":
         return names[x["i"] - 1]
     if op == "lit":
+        if litfmt and ctxcol in litfmt and x["v"]["k"] != "n":
+            return litfmt[ctxcol](x["v"])
         return sql_lit(x["v"], pool)
     if op == "bin":
         f = {"and": "AND", "or": "OR"}.get(x["f"], x["f"])
-        return f"({render(x['l'], names, pool)} {f} {render(x['r'], names, pool)})"
+        c = x["l"]["i"] if x["l"]["op"] == "col" else (x["r"]["i"] if x["r"]["op"] == "col" else 0)
+        return f"({render(x['l'], names, pool, litfmt, c)} {f} {render(x['r'], names, pool, litfmt, c)})"
     if op == "un":
-        e = render(x["e"], names, pool)
+        e = render(x["e"], names, pool, litfmt)
         return {"not": f"(NOT {e})", "isnull": f"({e} IS NULL)", "isnotnull": f"({e} IS NOT NULL)"}[x["f"]]
     if op == "in":
-        return f"({render(x['e'], names, pool)} {'NOT ' if x['neg'] else ''}IN ({', '.join(render(l, names, pool) for l in x['list'])}))"
+        c = x["e"]["i"] if x["e"]["op"] == "col" else 0
+        return f"({render(x['e'], names, pool, litfmt)} {'NOT ' if x['neg'] else ''}IN ({', '.join(render(l, names, pool, litfmt, c) for l in x['list'])}))"
     raise ValueError(f"node {op}")
 
 
